@@ -136,9 +136,17 @@ def prov(prog, body, place_or_op, depth=0):
 
 def _prov(prog, body, place_or_op, depth):
     out = set()
-    for o in origins(body, place_or_op, transparent=_VIEW):
+    for o in origins(body, place_or_op, transparent=_VIEW, index_origins=True):
         flds = [f for f in o.fields]
-        if o.kind == "const":
+        if o.kind == "index":
+            bs = prov(prog, body, o.data["base"], depth + 1)
+            if o.data.get("idx") is not None:
+                ix = prov(prog, body, {"l": o.data["idx"], "p": []}, depth + 1)
+            else:
+                ix = {("const", o.data.get("cidx"))}
+            one = lambda es: sorted(es, key=repr)[0] if len(es) == 1 else ("alt", tuple(sorted(es, key=repr)))  # noqa: E731
+            out.add(_wrap_fields(("call", "core::ops::index::Index::index", (one(bs), one(ix)), ()), flds))
+        elif o.kind == "const":
             out.add(_wrap_fields(_const_tree(o.data), flds) if "payload" in o.data else _const_tree(o.data))
         elif o.kind == "param":
             if body.kind == "closure":
